@@ -158,7 +158,7 @@ def exec_for(E, s):
         return
     # ---------------- symbolic loop: cut by the invariant from the sidecar contract
     ordinal = E.loop_ordinals.get(id(s))
-    spec = (E.contract.get('loops') or {}).get(ordinal)
+    spec = (E.case.get('loops') or {}).get(ordinal) or (E.contract.get('loops') or {}).get(ordinal)
     if spec is None:
         raise Unsupported('loop #%s (line %d) has symbolic length and no invariant in the contract'
                           % (ordinal, s.lineno))
